@@ -8,7 +8,7 @@ PROP = dict(
     required_theorems=["Comdex.C15.wrapped_unit_atomic", "Comdex.C15.good_shape_is_applyIfNoError", "Comdex.C15.source_wrapper_is_good",
                        "Comdex.C15.source_wrapper_atomic", "Comdex.C15.remaining_units_run", "Comdex.C15.failing_unit_skipped",
                        "Comdex.C15.fault_point_irrelevant", "Comdex.C15.blocker_total", "Comdex.C15.blocker_all_started",
-                       "Comdex.C15.slice_in_bounds", "Comdex.C15.sweep_total_if_counter_le_cap", "Comdex.C15.borrow_sweep_total",
+                       "Comdex.C15.slice_in_bounds", "Comdex.C15.slice_wrap_counterexample", "Comdex.C15.sweep_total_if_counter_le_cap", "Comdex.C15.borrow_sweep_total",
                        "Comdex.C15.d3_counterexample", "Comdex.C15.d3_panics_when_counter_exceeds_cap",
                        "Comdex.C15.unwrapped_loop_leaks_counterexample", "Comdex.C15.unwrapped_calls_reviewed",
                        "Comdex.C15.units_of_work_wrapped", "Comdex.C15.wrapped_units_propagate_errors",
